@@ -170,14 +170,18 @@ impl Exec {
         let v = real!(self.r.value()) as f64;
         ctx.probe(P_VALUE_CHECKS);
         let want = self.g(mean);
-        ctx.check(16, "value_is_corrected_window_mean", (v - want).abs() <= 1e-4, || {
+        // resolution of an f32 running sum of n samples: every addition rounds by at most 2^-24 of the partial sum,
+        // so the mean is off by at most 2^-24 * (n+1)/2 * max; doubled, carried through the correction
+        // (slope <= (1+e)/b), plus a few ulps for the correction and the rescaling themselves
+        let tol = n * 5.960464477539063e-8 * mx.max(0.0) * (1.0 + self.e) / self.b as f64 + 8.0 * 5.960464477539063e-8;
+        ctx.check(16, "value_is_corrected_window_mean", (v - want).abs() <= tol, || {
             format!(
                 "press of {} samples: value {:.7}, corrected mean of the capture window (samples {}..{} of the press) {:.7}",
                 l, v, lo, hi, want
             )
         });
         let (glo, ghi) = (self.g(mn), self.g(mx));
-        ctx.check(16, "value_between_corrected_min_and_max", v >= glo - 1e-6 && v <= ghi + 1e-6, || {
+        ctx.check(16, "value_between_corrected_min_and_max", v >= glo - tol && v <= ghi + tol, || {
             format!("value {:.7} outside the corrected min/max of the contributing samples [{:.7}, {:.7}]", v, glo, ghi)
         });
         ctx.check(16, "value_in_unit_range", (0.0..=1.0).contains(&v), || format!("value {:e} outside [0,1] while pressing", v));
